@@ -58,6 +58,8 @@ var c05Taints = []taint{
 	{name: "srcdoc", key: "srcdoc", val: "<p>x</p>"},
 	{name: "script", tag: "script"},
 	{name: "style-el", tag: "style"},
+	{name: "script-displayed", tag: "script", val: "display:block"},
+	{name: "style-displayed", tag: "style", val: "display:inline"},
 	// thorough only
 	{name: "onmouseover", key: "onmouseover", val: "x()"},
 	{name: "ID-upper", key: "ID", val: "ident2", raw: true},
@@ -67,7 +69,7 @@ var c05Taints = []taint{
 	{name: "on", key: "on", val: "x"},
 }
 
-const c05QuickTaints = 10
+const c05QuickTaints = 12
 
 var c05Skel = c05Skeleton()
 
@@ -83,7 +85,21 @@ func c05Elements(doc *html.Node) []*html.Node {
 	return els
 }
 
+// every event-handler content attribute of the HTML standard (global, window-reflecting and
+// element-specific), plus handlers added by newer platform features
+var c05Handlers = strings.Fields(`onabort onafterprint onanimationcancel onanimationend onanimationiteration onanimationstart onauxclick onbeforecopy onbeforecut onbeforeinput onbeforematch onbeforepaste onbeforeprint onbeforetoggle onbeforeunload onblur oncancel oncanplay oncanplaythrough onchange onclick onclose oncommand oncontentvisibilityautostatechange oncontextlost oncontextmenu oncontextrestored oncopy oncuechange oncut ondblclick ondrag ondragend ondragenter ondragleave ondragover ondragstart ondrop ondurationchange onemptied onended onerror onfocus onfocusin onfocusout onformdata onfullscreenchange onfullscreenerror ongotpointercapture onhashchange oninput oninvalid onkeydown onkeypress onkeyup onlanguagechange onload onloadeddata onloadedmetadata onloadstart onlostpointercapture onmessage onmessageerror onmousedown onmouseenter onmouseleave onmousemove onmouseout onmouseover onmouseup onmousewheel onoffline ononline onpagehide onpagereveal onpageshow onpageswap onpaste onpause onplay onplaying onpointercancel onpointerdown onpointerenter onpointerleave onpointermove onpointerout onpointerover onpointerrawupdate onpointerup onpopstate onprogress onratechange onreadystatechange onrejectionhandled onreset onresize onscroll onscrollend onscrollsnapchange onscrollsnapchanging onsearch onsecuritypolicyviolation onseeked onseeking onselect onselectionchange onselectstart onslotchange onstalled onstorage onsubmit onsuspend ontimeupdate ontoggle ontouchcancel ontouchend ontouchmove ontouchstart ontransitioncancel ontransitionend ontransitionrun ontransitionstart onunhandledrejection onunload onvolumechange onwaiting onwebkitanimationend onwebkitanimationiteration onwebkitanimationstart onwebkitfullscreenchange onwebkitfullscreenerror onwebkittransitionend onwheel`)
+
 func c05Enumerate(tier string, emit func(*eng.Case)) {
+	// every known event-handler attribute on every element (singles)
+	nElAll := len(c05Elements(ora.Parse(c05Skel)))
+	for hi := range c05Handlers {
+		for e := 0; e < nElAll; e++ {
+			if tier != "thorough" && e%3 != hi%3 {
+				continue // quick: each handler on every third element (all elements covered across handlers)
+			}
+			emit(&eng.Case{Kind: "handler", P: map[string]string{"ops": fmt.Sprintf("%d:h%d", e, hi)}})
+		}
+	}
 	nEl := len(c05Elements(ora.Parse(c05Skel)))
 	nT := c05QuickTaints
 	if tier == "thorough" {
@@ -108,6 +124,9 @@ func c05Enumerate(tier string, emit func(*eng.Case)) {
 		}
 		for i := range ops {
 			for j := i + 1; j < len(ops); j++ {
+				if tier != "thorough" && (ops[i].t >= 10 || ops[j].t >= 10) {
+					continue // quick: the displayed script/style children as singles only
+				}
 				if ops[i].el == ops[j].el && c05Taints[ops[i].t].key != "" && c05Taints[ops[i].t].key == c05Taints[ops[j].t].key {
 					continue
 				}
@@ -150,12 +169,27 @@ func c05Check(c *eng.Case) *eng.Outcome {
 		for _, s := range strings.Split(ops, ",") {
 			parts := strings.Split(s, ":")
 			ei, _ := strconv.Atoi(parts[0])
-			ti, _ := strconv.Atoi(parts[1])
-			if ei >= len(els) || ti >= len(c05Taints) {
+			var t taint
+			if strings.HasPrefix(parts[1], "h") {
+				hi, _ := strconv.Atoi(parts[1][1:])
+				if hi >= len(c05Handlers) {
+					o.Skipped = "stale replay"
+					return o
+				}
+				t = taint{name: c05Handlers[hi], key: c05Handlers[hi], val: "x()"}
+			} else {
+				ti, _ := strconv.Atoi(parts[1])
+				if ti >= len(c05Taints) {
+					o.Skipped = "stale replay (taints changed)"
+					return o
+				}
+				t = c05Taints[ti]
+			}
+			if ei >= len(els) {
 				o.Skipped = "stale replay (skeleton changed)"
 				return o
 			}
-			el, t := els[ei], c05Taints[ti]
+			el := els[ei]
 			if t.tag != "" {
 				if dom.IsVoidElement(el) || el.Data == "iframe" {
 					o.Skipped = ""
@@ -163,6 +197,9 @@ func c05Check(c *eng.Case) *eng.Outcome {
 					return o // cannot hold children; trivially fine
 				}
 				ch := dom.CreateElement(t.tag)
+				if t.val != "" {
+					ch.Attr = append(ch.Attr, html.Attribute{Key: "style", Val: t.val})
+				}
 				dom.AppendChild(ch, dom.CreateTextNode("zzinert{}"))
 				el.AppendChild(ch)
 			} else {
@@ -248,7 +285,7 @@ func init() {
 		ID:        "C05",
 		DesignRef: "§5 C05",
 		Rule: "host document with every element kind that has its own rendering path (text blocks with inline markup, list, img, picture, two figures, video with source/track, data table with image, layout table with font, YouTube and Vimeo iframes, twitter blockquote, blockquote, pre, heading), all retained; " +
-			"every element node of its body x every taint {onclick, onerror, raw upper-case ONLOAD, id, class, style, data-x, srcdoc, child <script>, child <style>} (quick) + {onmouseover, raw ID, data-type, unknown, xmlns:og, on} and a page URL (thorough); all singles and all pairs. Taints are applied to the parsed tree, so raw-case keys reach the library. " +
+			"every element node of its body x every taint {onclick, onerror, raw upper-case ONLOAD, id, class, style, data-x, srcdoc, child <script>, child <style>, the same children carrying an inline display style} (quick) + {onmouseover, raw ID, data-type, unknown, xmlns:og, on} and a page URL (thorough); all singles and all pairs; plus each of the 137 event-handler attributes of the HTML standard on the elements (quick: every third element per handler; thorough: every element). Taints are applied to the parsed tree, so raw-case keys reach the library. " +
 			"Oracle on result.Node: no script/style element; no on* attribute; no id/style; class only 'embed-placeholder' on the placeholder div; data-* only data-type/data-id there. Non-trivial = every tainted host element is represented in the output.",
 		Enumerate: c05Enumerate,
 		Check:     c05Check,
